@@ -13,6 +13,8 @@
 #include "sched.h"
 
 #include <algorithm>
+#include <sys/personality.h>
+#include <unistd.h>
 #include <mutex>
 
 struct top {
@@ -92,8 +94,14 @@ static std::string do_op(Token token, const top& o) {
     } else if (o.kind == "get") {
         std::string st = unhex(a[0]), k = unhex(a[1]);
         std::pair<char*, std::size_t> g{};
-        status s = get<char>(st, k, g);
+        std::pair<node_version64_body, node_version64*> cv{};
+        status s = get<char>(st, k, g, &cv);
         out << s;
+        if (s == status::WARN_NOT_EXIST && cv.second != nullptr) {
+            // the (version, node) pair a transaction would re-validate for this miss
+            std::lock_guard<std::mutex> lk(g_rec_mu);
+            g_scans.push_back(scan_rec{g_cur_tid, "get" + join(o.args), {cv}});
+        }
         if (s == status::OK) {
             if (g.first == nullptr) out << " NULLPTR len=" << g.second;
             else if (reinterpret_cast<std::uintptr_t>(g.first) > 0x100000000ULL)
@@ -165,6 +173,13 @@ static std::string do_op(Token token, const top& o) {
 
 int main(int argc, char** argv) {
     if (argc < 2) return 2;
+    {
+        // same addresses in every run of the same scenario (race-directed exploration matches accesses of
+        // different runs by address): switch address space randomisation off and start again
+        int pers = personality(0xffffffff);
+        if (pers != -1 && (pers & ADDR_NO_RANDOMIZE) == 0 && personality(pers | ADDR_NO_RANDOMIZE) != -1)
+            execv("/proc/self/exe", argv);
+    }
     FILE* f = std::fopen(argv[1], "r");
     if (!f) return 2;
     vtrack::enable();
@@ -311,7 +326,7 @@ int main(int argc, char** argv) {
     if (print_events)
         for (auto& e : S.log)
             std::cout << "E " << e.seq << " " << e.tid << " " << e.kind << " " << e.obj << " " << hx(e.addr) << " "
-                      << hx(e.val) << " " << e.ok << "\n";
+                      << hx(e.val) << " " << e.ok << " " << e.step << "\n";
     // quiescent state
     for (auto& fk : finals) {
         std::pair<char*, std::size_t> g{};
